@@ -120,6 +120,26 @@ func (ex *Exec) refAxiom(key, name string, srt Sort, alloc string) {
 		return
 	}
 	alloc = hi
+	if k == "ref" && len(addressable) > 0 {
+		if pt, ok := ex.leafTyp[key].(*types.Pointer); ok && addressableElem[typeKey(pt.Elem())] {
+			lo = "" // pointers to addressable embedded fields are virtual (negative) references
+		} else if ex.leafTyp[key] != nil {
+			if pt, ok := ex.leafTyp[key].Underlying().(*types.Pointer); ok && addressableElem[typeKey(pt.Elem())] {
+				lo = ""
+			}
+		}
+	}
+	if lo == "" {
+		switch srt {
+		case SArr(SInt, SInt):
+			ex.sc.Assume(fmt.Sprintf("(forall ((o Int)) (! (<= (select %s o) %s) :pattern ((select %s o))))", name, hi, name))
+		case SArr(SInt, SArr(SInt, SInt)):
+			ex.sc.Assume(fmt.Sprintf("(forall ((a Int) (p Int)) (! (<= (select (select %s a) p) %s) :pattern ((select (select %s a) p))))", name, hi, name))
+		case SInt:
+			ex.sc.Assume(fmt.Sprintf("(<= %s %s)", name, hi))
+		}
+		return
+	}
 	if lo != "0" {
 		switch srt {
 		case SArr(SInt, SInt):
@@ -215,13 +235,48 @@ func joinPath(a, b string) string {
 }
 
 // ptrLocs lists the leaf locations of a value of type t stored at p.
+// Addressable embedded struct fields (declared with //@ addressable T.f): the
+// field's leaves live in the heap arrays of the field's own type, at a virtual
+// (negative) reference computed from the enclosing object's reference, so that a
+// pointer &x.f can be stored in the heap and dereferenced like any *FieldType.
+var addressable = map[string]int{}         // "T.f" -> ordinal
+var addressableElem = map[string]bool{}    // typeKey of field types that have virtual objects
+var addressableFieldType = map[string]string{} // "T.f" -> typeKey(field type)
+
+func vref(k int, ref string) string {
+	n := len(addressable)
+	return fmt.Sprintf("(- (- (+ (* %s %d) %d)) 1)", ref, n, k)
+}
+
+// addressableSplit: for an object of type base and a leaf path "f.rest", is f an addressable field?
+func addressableSplit(base types.Type, full string) (k int, ftKey, rest string, ok bool) {
+	i := strings.Index(full, ".")
+	first := full
+	if i >= 0 {
+		first, rest = full[:i], full[i+1:]
+	}
+	key := typeKey(base) + "." + first
+	k, ok = addressable[key]
+	if !ok {
+		return
+	}
+	return k, addressableFieldType[key], rest, true
+}
+
 func ptrLocs(p *Ptr, t types.Type) []Loc {
 	ls := leavesOf(t)
 	out := make([]Loc, len(ls))
 	for i, l := range ls {
 		switch p.Root {
 		case "obj":
-			out[i] = Loc{Key: "H." + typeKey(p.Base) + "." + joinPath(p.Path, l.Path), Sort: SArr(SInt, l.Sort), Idx: []string{p.Ref}, Leaf: l}
+			full := joinPath(p.Path, l.Path)
+			if len(addressable) > 0 {
+				if k, ftKey, rest, ok := addressableSplit(p.Base, full); ok {
+					out[i] = Loc{Key: "H." + ftKey + "." + rest, Sort: SArr(SInt, l.Sort), Idx: []string{vref(k, p.Ref)}, Leaf: l}
+					continue
+				}
+			}
+			out[i] = Loc{Key: "H." + typeKey(p.Base) + "." + full, Sort: SArr(SInt, l.Sort), Idx: []string{p.Ref}, Leaf: l}
 		case "elem":
 			out[i] = Loc{Key: "E." + typeKey(p.Base) + "." + joinPath(p.Path, l.Path), Sort: SArr(SInt, SArr(SInt, l.Sort)), Idx: []string{p.Ref, p.Idx}, Leaf: l}
 		case "global":
